@@ -123,7 +123,16 @@ pub(crate) fn scan_and_apply_units<S: TexlangState>(
             }
             super::OptionalSpace::parse(input)?;
             return match Scaled::from_integer(integer_part) {
-                Ok(integer_part) => Ok(integer_part + fractional_part),
+                Ok(integer_part) => {
+                    // TeX.2021.448: a fraction that rounds up to 1 can take the sum
+                    // past the largest dimension.
+                    let sum = integer_part + fractional_part;
+                    if sum > Scaled::MAX_DIMEN {
+                        handle_overflow(input, first_token, false)
+                    } else {
+                        Ok(sum)
+                    }
+                }
                 Err(_) => handle_overflow(input, first_token, false),
             };
         }
